@@ -88,3 +88,20 @@ Definition check_pathperm_lookup (reads writes other : list string) (direct : bo
   && subset_s reads ["user.get_permissions"; "user"; "response"]
   && nil_b writes
   && subset_s other ["cls.get_paths(connection, rest)"; "f(cls, connection, rest, *args)"].
+
+(* both ends of a rename are resolved by the command that SUPPLIED them: rnfr resolves its own argument (its body calls
+   get_paths) and stores the result in rename_from; rnto hands exactly that stored path and its own real_path to
+   path_io.rename -- it does not resolve the RNFR argument again under the working directory of the RNTO *)
+Definition is_srename (p : psrc) : bool := match p with SRenameFrom => true | _ => false end.
+Definition is_sreal (p : psrc) : bool := match p with SReal => true | _ => false end.
+
+Definition rename_source_resolved_at_rnfr (hs : list handler) : bool :=
+  match find_handler "rnfr" hs, find_handler "rnto" hs with
+  | Some f, Some t =>
+      h_get_paths f && mem_s "rename_from" (h_conn_sets f)
+      && match filter (fun c => String.eqb (bc_method c) "rename") (h_backend t) with
+         | [c] => match bc_args c with [a; b] => is_srename a && is_sreal b | _ => false end
+         | _ => false
+         end
+  | _, _ => false
+  end.
